@@ -98,8 +98,23 @@ type concResult struct {
 }
 
 // runConcHistory: G goroutines x few seats, at most ~60 operations
-func runConcHistory(r *rand.Rand, max, G, perG int, mixed bool) *concResult {
+func runConcHistory(r *rand.Rand, max, G, perG int, mixedKind int) *concResult {
+	mixed := mixedKind > 0
 	m := sm.NewSeatManager(max)
+	// histories with restores: a snapshot of a table with players sat in but no hand played yet (no
+	// dealer) is taken first and applied again at random points of the concurrent phase
+	var saved *sm.SeatManagerState
+	if mixedKind == 2 {
+		for i := 0; i < max && i < 3; i++ {
+			m.Join(i, fmt.Sprintf("early%d", i))
+			m.Seat(i)
+		}
+		saved = &sm.SeatManagerState{Max: max, Seats: map[int]*sm.Seat{}, Dealer: -1, SB: -1, BB: -1}
+		for _, x := range m.GetSeats() {
+			c := *x
+			saved.Seats[x.ID] = &c
+		}
+	}
 	var clock int64
 	res := &concResult{}
 	var mu sync.Mutex
@@ -126,6 +141,9 @@ func runConcHistory(r *rand.Rand, max, G, perG int, mixed bool) *concResult {
 				// the other public mutators and readers, racing with joins and leaves (not part of the
 				// linearizability model: these histories are checked by the race detector, recover() and the ledger)
 				in = seatIn{[]byte{'S', 'R', 'N', 'P', 'A'}[r.Intn(5)], r.Intn(max), max}
+				if mixedKind == 2 && r.Intn(2) == 0 {
+					in = seatIn{[]byte{'X', 'N', 'N'}[r.Intn(3)], 0, max}
+				}
 			}
 			plans[g] = append(plans[g], in)
 		}
@@ -164,6 +182,8 @@ func runConcHistory(r *rand.Rand, max, G, perG int, mixed bool) *concResult {
 						m.Reserve(in.Seat)
 					case 'N':
 						m.Next()
+					case 'X':
+						m.ApplyStates(saved)
 					case 'P':
 						_ = m.GetPlayableSeatCount() + m.GetAvailableSeatCount()
 					case 'A':
@@ -204,7 +224,7 @@ func runConcHistory(r *rand.Rand, max, G, perG int, mixed bool) *concResult {
 		}
 	}
 	res.finalOK = true
-	if len(res.panics) == 0 {
+	if len(res.panics) == 0 && mixedKind != 2 {
 		seats := m.GetSeats()
 		for i, s := range seats {
 			occ := 0
@@ -267,11 +287,20 @@ func concBatch(prop string, seed int64, stream int64, n int, rep *Report, parall
 				for G*perG > 60 {
 					G--
 				}
-				mixed := i%5 == 4
-				res := runConcHistory(r, max, G, perG, mixed)
+				mixedKind := 0
+				if i%5 == 4 {
+					mixedKind = 1
+				} else if i%5 == 3 && i%2 == 0 {
+					mixedKind = 2
+				}
+				mixed := mixedKind > 0
+				res := runConcHistory(r, max, G, perG, mixedKind)
 				local.Inc("concurrent_histories")
 				if mixed {
 					local.Inc("concurrent_histories_mixed_operations")
+				}
+				if mixedKind == 2 {
+					local.Inc("concurrent_histories_with_restores")
 				}
 				local.Add("concurrent_operations", int64(len(res.ops)))
 				if res.contended {
@@ -319,6 +348,67 @@ func concBatch(prop string, seed int64, stream int64, n int, rep *Report, parall
 		}()
 	}
 	wg.Wait()
+}
+
+// runHoppers: as many clients as the table has seats, each holding at most one seat: take any seat,
+// leave it, again. A client that asks for "any seat" holds none, so at most max-1 seats are taken at that
+// moment and the request can never rightly be refused; nor can a client ever be given a seat that
+// somebody else holds (checked through per-seat owner marks).
+func runHoppers(prop string, rep *Report, seed int64, idx int, r *rand.Rand) {
+	max := 2 + r.Intn(3)
+	rounds := 200 + r.Intn(400)
+	m := sm.NewSeatManager(max)
+	owner := make([]int32, max)
+	var refused, doubled int64
+	var firstMsg atomic.Value
+	var wg sync.WaitGroup
+	start := make(chan struct{})
+	for c := 0; c < max; c++ {
+		wg.Add(1)
+		go func(c int) {
+			defer wg.Done()
+			defer func() {
+				if e := recover(); e != nil {
+					firstMsg.CompareAndSwap(nil, fmt.Sprintf("client %d: panic: %v", c, e))
+					atomic.AddInt64(&doubled, 1)
+				}
+			}()
+			<-start
+			for k := 0; k < rounds; k++ {
+				sid, err := m.Join(-1, fmt.Sprintf("c%d", c))
+				if err != nil {
+					atomic.AddInt64(&refused, 1)
+					firstMsg.CompareAndSwap(nil, fmt.Sprintf("client %d, round %d: Join(-1) refused (%v) on a table of %d seats shared by %d clients that hold at most one seat each", c, k, err, max, max))
+					continue
+				}
+				if sid < 0 || sid >= max || !atomic.CompareAndSwapInt32(&owner[sid], 0, int32(c+1)) {
+					atomic.AddInt64(&doubled, 1)
+					firstMsg.CompareAndSwap(nil, fmt.Sprintf("client %d, round %d: Join(-1) returned seat %d which another client holds", c, k, sid))
+					continue
+				}
+				if k%3 == 0 {
+					runtime.Gosched()
+				}
+				atomic.StoreInt32(&owner[sid], 0)
+				if err := m.Leave(sid); err != nil {
+					atomic.AddInt64(&doubled, 1)
+					firstMsg.CompareAndSwap(nil, fmt.Sprintf("client %d, round %d: Leave(%d) of the seat it holds refused: %v", c, k, sid, err))
+				}
+			}
+		}(c)
+	}
+	close(start)
+	wg.Wait()
+	rep.Inc("hopper_scenarios")
+	rep.Add("hopper_join_any_calls", int64(max*rounds))
+	rep.Inc("oracle_evaluations")
+	msg, _ := firstMsg.Load().(string)
+	cs := map[string]interface{}{"seats": max, "clients": max, "rounds_per_client": rounds, "note": "not replayable step by step: re-run the check"}
+	if refused > 0 {
+		rep.Violate(&Violation{Prop: prop, Rule: "C18/join-any-refused-with-free-seat", Cause: "concurrent", Msg: fmt.Sprintf("%d of %d requests: %s", refused, max*rounds, msg), Kind: "conc", Case: cs, Seed: seed, CaseIndex: idx})
+	} else if doubled > 0 {
+		rep.Violate(&Violation{Prop: prop, Rule: "C18/double-booking", Cause: "concurrent-hoppers", Msg: msg, Kind: "conc", Case: cs, Seed: seed, CaseIndex: idx})
+	}
 }
 
 // c18RaceMain is the body of the -race child: the same concurrent workload, repeated for several
